@@ -71,6 +71,13 @@ impl ConnectionId {
     }
 }
 
+#[cfg(feature = "verif-hooks")]
+impl ConnectionId {
+    pub(crate) fn verif_id(&self) -> usize {
+        self.0.id()
+    }
+}
+
 impl PartialEq for ConnectionId {
     fn eq(&self, other: &Self) -> bool {
         self.0.id() == other.0.id()
